@@ -223,6 +223,12 @@ func judge(t *treefs.Node, op treefs.Op, o outcome) (string, string, string) {
 		if ok, why := treefs.FrameOK(t.Flat(), o.diskAfter, touched); !ok {
 			return "disk-frame", "no change outside the addressed paths", "disk filespace changed a node outside the addressed paths: " + why
 		}
+		if e.Class == treefs.MustFail && o.disk.Err != "" {
+			// an operation that must fail, and did: not even ancestors of the addressed paths appear
+			if ok, why := treefs.FrameStrict(t.Flat(), o.diskAfter, touched); !ok {
+				return "disk-frame-failed-op-created-ancestors", "no change outside the addressed paths", "the disk filespace reported the (required) error but changed a node that is not below an addressed path: " + why
+			}
+		}
 		if ok, why := treefs.FrameOK(t.Flat(), o.memAft, touched); !ok {
 			return "mem-frame", "no change outside the addressed paths", "memory filespace changed a node outside the addressed paths: " + why
 		}
